@@ -111,22 +111,23 @@ type cacheEntry struct {
 	v          pool.Buffer
 }
 
-var cacheEntryPool = sync.Pool{
-	New: func() any { return new(cacheEntry) },
-}
-
 func newCacheEntry() *cacheEntry {
 	if verifOn {
 		return verifNewEntry()
 	}
-	return cacheEntryPool.Get().(*cacheEntry)
+	return new(cacheEntry)
 }
 
+// releaseEntry releases the value buffer of e. It may be called more than
+// once for one entry: otter can report the deletion of a node several times
+// (e.g. once for every lookup that finds it expired). For the same reason
+// entries are not recycled through a pool: a late duplicate report would
+// release an entry that already belongs to another key.
 func releaseEntry(e *cacheEntry) {
+	e.l.Lock()
 	if verifOn {
 		verifReleaseEntry(e)
 	}
-	e.l.Lock()
 	e.storedTime = time.Time{}
 	e.expireTime = time.Time{}
 	e.k = ""
@@ -135,5 +136,4 @@ func releaseEntry(e *cacheEntry) {
 		e.v = nil
 	}
 	e.l.Unlock()
-	cacheEntryPool.Put(e)
 }
